@@ -799,12 +799,33 @@ func (m *Model) evalSlice(n *Node, in MIn, path string, mn *MNode) {
 			return
 		}
 	} else if in.V.K == "l" || in.V.K == "tl" || in.V.K == "sl" {
+		if n.Coercer != "" && m.Mode == "parse" {
+			m.abstain("whether a custom slice coercer sees an input that already is a list is not documented")
+		}
 		for _, e := range in.V.L {
 			elems = append(elems, MIn{V: e})
 		}
 	} else if in.V.K == "x" {
 		m.abstain("exotic input for slice")
 		return
+	} else if n.Coercer == "fail" && m.Mode == "parse" {
+		// z.Slice(..., z.WithCoercer(f)): f decides what a non-list input becomes; its error is the node's coerce issue
+		m.issue(n, path, "coerce", "coerce", -1)
+		mn.Issues++
+		mn.Failed = true
+		for i := range n.PTs {
+			m.Forbid = append(m.Forbid, MCall{Node: n.ID, Kind: "pt", Idx: i})
+		}
+		for i, t := range n.Tests {
+			if t.T == "custom" {
+				m.Forbid = append(m.Forbid, MCall{Node: n.ID, Kind: "test", Idx: i})
+			}
+		}
+		return
+	} else if n.Coercer == "const" && n.CoVal != nil && m.Mode == "parse" {
+		for _, e := range n.CoVal.L {
+			elems = append(elems, MIn{V: e})
+		}
 	} else {
 		// documented: a scalar becomes a one-element slice
 		elems = []MIn{{V: in.V}}
